@@ -271,8 +271,13 @@ BoundCoversLongest(ev, f, o) ==
                                     [noexp |-> f.no_exponent_notation, reqexp |-> f.required_exponent_notation,
                                      reqsign |-> f.required_exponent_sign])
              sp == 1 + (IF Len(o.nan) > Len(o.inf) THEN Len(o.nan) ELSE Len(o.inf))
+             fl == [noexp |-> f.no_exponent_notation, reqexp |-> f.required_exponent_notation, reqsign |-> f.required_exponent_sign]
+             db == BND!DocBound([min |-> o.min, max |-> o.max, neg |-> o.neg, pos |-> o.pos, trim |-> o.trim], fl,
+                                ev.feat.pow2 \/ ev.feat.radix, ev.bound.fsd, "ok")
          IN  V(ev.bound.bsc >= L.len, "C09", "the documented buffer bound is smaller than the longest output these options allow")
           \o V(ev.bound.bsc >= sp, "C09", "the documented buffer bound is smaller than a special-value string")
+          \* not a property: tells the reader that MC_Bounds / AP_Bounds (which reason about DocBound) no longer describe this code
+          \o V(ev.bound.bsc = db, "MODEL", "buffer_size_const differs from the formula modelled as Bounds!DocBound")
 
 WriteFloatContract(ev) ==
     LET f  == FmtOf(ev)
